@@ -22,8 +22,6 @@ where
     t_eval: Option<Vec<Float>>,
     /// Current index into `t_eval` for tracking progress
     next_idx: usize,
-    /// Numerical tolerance for time comparisons
-    tol: Float,
     /// Collected output times
     t: Vec<Float>,
     /// Collected solution states corresponding to `t`
@@ -60,6 +58,13 @@ where
     g_mid_buf: Vec<Float>,
 }
 
+/// Rounding slack for comparing a requested output time with a step boundary: a few ulps of
+/// the boundary, so that it scales with the magnitude of the times involved.
+#[inline]
+fn time_tol(a: Float, b: Float) -> Float {
+    8.0 * Float::EPSILON * a.abs().max(b.abs())
+}
+
 impl<'a, F> DefaultSolOut<'a, F>
 where
     F: IVP,
@@ -83,7 +88,6 @@ where
             ode,
             t_eval,
             next_idx: 0,
-            tol: 1e-12,
             t: Vec::new(),
             y: Vec::new(),
             t_events: vec![Vec::new(); n_events],
@@ -119,10 +123,11 @@ where
             return;
         };
         let mut i = self.next_idx;
+        let tol = time_tol(xold, x);
         if x > xold {
             // Forward integration: t_eval[i] in (xold, xlim]
             while i < t_eval.len() && t_eval[i] <= xlim + lim_tol {
-                if t_eval[i] >= xold - self.tol {
+                if t_eval[i] >= xold - tol {
                     let mut yi = vec![0.0; n];
                     interpolant.interpolate(t_eval[i], &mut yi);
                     self.t.push(t_eval[i]);
@@ -133,7 +138,7 @@ where
         } else {
             // Backward integration: t_eval is sorted decreasing, t_eval[i] in [xlim, xold)
             while i < t_eval.len() && t_eval[i] >= xlim - lim_tol {
-                if t_eval[i] <= xold + self.tol {
+                if t_eval[i] <= xold + tol {
                     let mut yi = vec![0.0; n];
                     interpolant.interpolate(t_eval[i], &mut yi);
                     self.t.push(t_eval[i]);
@@ -391,10 +396,10 @@ impl<'a, F: IVP> SolOut for DefaultSolOut<'a, F> {
             // Mode 1: User-specified output times
             // Interpolate solution at each requested time within the current step interval.
 
-            if (xold - *x).abs() <= self.tol {
+            if xold == *x {
                 // Initial callback (xold == x): output at matching t_eval points
                 let mut i = self.next_idx;
-                while i < t_eval.len() && (t_eval[i] - *x).abs() <= self.tol {
+                while i < t_eval.len() && (t_eval[i] - *x).abs() <= time_tol(*x, *x) {
                     self.t.push(t_eval[i]);
                     self.y.push(y.to_vec());
                     i += 1;
@@ -402,7 +407,7 @@ impl<'a, F: IVP> SolOut for DefaultSolOut<'a, F> {
                 self.next_idx = i;
             } else {
                 // Regular accepted step: interpolate at all t_eval[i] within [xold, x] or [x, xold]
-                let tol = self.tol;
+                let tol = time_tol(xold, *x);
                 self.sample_t_eval(xold, *x, *x, tol, y.len(), interpolant.unwrap());
             }
         } else {
@@ -413,26 +418,31 @@ impl<'a, F: IVP> SolOut for DefaultSolOut<'a, F> {
             if let Some(h0) = self.first_step {
                 // First-step enforcement: skip intermediate outputs until we reach/pass
                 // the target, then interpolate to the exact point.
-                if !self.first_output_done && (xold - *x).abs() > self.tol {
+                if !self.first_output_done && xold != *x {
                     let direction = (*x - xold).signum();
                     // For backward integration (direction < 0), target is x0 - h0
                     let target = self.x0 + direction * h0.abs();
                     
-                    if direction * (*x - target) >= -self.tol {
+                    let tol = time_tol(*x, target);
+                    if direction * (*x - target) >= -tol {
                         // We've reached or passed the target point
-                        if let Some(interp) = interpolant {
+                        if (*x - target).abs() <= tol {
+                            // The step ends at the target (to rounding): report the endpoint itself
+                            self.t.push(*x);
+                            self.y.push(y.to_vec());
+                        } else if let Some(interp) = interpolant {
                             let mut yi = vec![0.0; y.len()];
                             interp.interpolate(target, &mut yi);
                             self.t.push(target);
                             self.y.push(yi);
-                            self.first_output_done = true;
-                        }
-                        
-                        // Also output current endpoint if distinct from target
-                        if (*x - target).abs() > self.tol {
+                            // Also output the current endpoint
+                            self.t.push(*x);
+                            self.y.push(y.to_vec());
+                        } else {
                             self.t.push(*x);
                             self.y.push(y.to_vec());
                         }
+                        self.first_output_done = true;
                         return ControlFlag::Continue;
                     } else {
                         // Haven't reached target yet; skip this output
@@ -442,7 +452,7 @@ impl<'a, F: IVP> SolOut for DefaultSolOut<'a, F> {
             }
             
             // Normal output: record endpoint (avoid duplicates)
-            if self.t.is_empty() || (self.t.last().unwrap() - *x).abs() > self.tol {
+            if self.t.is_empty() || *self.t.last().unwrap() != *x {
                 self.t.push(*x);
                 self.y.push(y.to_vec());
             }
